@@ -82,10 +82,12 @@ CHECKS = {
     "C06": dict(
         text="Proof: arity theorems (array, 2- and 3-tuples: exactly one BadSequenceLen with the whole sequence and the expected length, any script/state), Option (None iff null, "
              "otherwise Some of the content's result), Box transparent, Vec (an Ok result has one output per payload element, in order, each the Ok result of its own element at its own "
-             "index), maps (an unparsable key makes the call fail whatever the error type answers). Sets/maps value semantics and CS lists are decided by correspondence + the reference "
-             "interpreter monitor.",
+             "index), maps (an unparsable key makes the call fail whatever the error type answers). Sets and maps as values: (c06_set_value, c06_map_value, through the C02 refinement) a successful set is "
+             "the de-duplication of its element values - only elements of the list, none equal to one kept before, every element kept or equal to a kept one (c06_set_members/_distinct/_covers) - and "
+             "a successful map is the fold of map_insert over the members in payload order, map_insert being a finite-map update (c06_map_insert_same/_other: the last member with a given parsed key wins). "
+             "CS lists: correspondence + reference-interpreter monitor.",
         ref="5 C06", technique="Coq theorems by unfolding/induction on the element list + Leaves invariant; in-Coq differential check + Spec.v monitor",
-        note="Trusted: as C01. Partial: set/map contents and CS have no dedicated theorem (correspondence + spec monitor). No axioms."),
+        note="Trusted: as C01. Partial: comma-separated lists (split/parse modelled, tied by correspondence); set/map value theorems are for the keep-going error type. No axioms."),
     "C09": dict(
         text="Proof: (c09_ignored) without deny_unknown_fields the run on a payload equals, for every script and state, result and calls, the run on the payload with all unknown-key "
              "members removed; (c09_denied_step) with it, a member whose key matches no field is reported as UnknownKey with the accepted-key list at the container's location and the loop "
